@@ -1,7 +1,7 @@
 (* C14/ModelDDN.v — Gallina models of src/Factored/Utils/BayesianNetwork.cpp
    (DDNGraph::push/getId/getIds/getSize, DDN::getTransitionProbability, backProject).
    Matrix2D = list of rows; unchecked reads default to 0 / [].  No proofs in this file. *)
-From Coq Require Import List Arith QArith.
+From Coq Require Import List Arith QArith Qabs.
 From AIT Require Import C14.Model C14.ModelAlg.
 Import ListNotations.
 Local Open Scope Q_scope.
@@ -122,3 +122,14 @@ Definition backProject (g : ddnGraph) (T : list matrix) (rhs : bf) : bm :=
                                 (combine (seq 0 (length rDomain)) rDomain) 0))
                    aDomain)
             sDomain).
+
+(* src: Utils/Probability.hpp:isProbability(size, row): no negative entry, |sum - 1| <= 1e-6 *)
+Definition row_is_probability (n : nat) (r : list Q) : bool :=
+  forallb (fun x => Qle_bool 0 x) (firstn n r) &&
+  Qle_bool (Qabs (fold_left Qplus (firstn n r) 0 - 1)) (1 # 1000000).
+(* src: Factored/MDP/CooperativeModel.cpp:CooperativeModel(...) — "Check each row is a probability":
+   for every node i, every row j < graph_.getSize(i) *)
+Definition tables_are_probabilities (g : ddnGraph) (T : list matrix) : bool :=
+  forallb (fun i => forallb (fun j => row_is_probability (nth i (gS g) 0%nat) (nth j (nth i T []) []))
+                            (seq 0 (getSize g i)))
+          (seq 0 (length (gS g))).
